@@ -184,7 +184,16 @@ static void die_report (const char *how, int n) {
   fflush (stdout);
   if (write (1, msg, len) < 0) {}
 }
+static volatile sig_atomic_t dying;
 static void on_signal (int sig) {
+  /* the report walks the stack (backtrace), which may never end after a wild jump: a second signal -- the watchdog
+     alarm below included (SA_NODEFER) -- ends the process at once */
+  if (dying) {
+    if (write (1, " CRASH:run:sig0\n", 16) < 0) {}
+    _exit (100);
+  }
+  dying = 1;
+  alarm (3);
   die_report ("sig", sig);
   _exit (100);
 }
@@ -201,7 +210,7 @@ static void install_death_reports (void) {
     struct sigaction sa;
     memset (&sa, 0, sizeof (sa));
     sa.sa_handler = on_signal;
-    sa.sa_flags = SA_ONSTACK;
+    sa.sa_flags = SA_ONSTACK | SA_NODEFER;
     sigaction (sigs[i], &sa, NULL);
   }
   atexit (on_exit_hook);
